@@ -6,8 +6,8 @@ from . import common as K
 from .lexmodel import LexModel, base_of_member
 from . import lexpaths as LP
 
-CONFIGS_QUICK = ["A"]
-CONFIGS_THOROUGH = ["A", "B", "C", "D", "E"]
+CONFIGS_QUICK = ["A", "G"]
+CONFIGS_THOROUGH = ["A", "B", "C", "D", "E", "G"]
 
 EXPLANATION = (
     "Static decision of the non-language clauses of C13 (that each recogniser accepts exactly the "
@@ -40,6 +40,8 @@ RULES = {
     "C13-T6": "parser level: scpiParser_parseProgramData / parseAllProgramData report exactly the number of bytes their recognisers consumed (white space included), on every path",
     "C13-T8": "after a sub-recogniser that can fail with the cursor moved reported failure, the caller restores the cursor on every path before it measures the token",
     "C13-T10": "scpiParser_parseProgramData leaves the cursor behind the white space that follows the data: on every path the last recogniser it ran on the cursor is the white-space recogniser (the comma / terminator is expected right there)",
+    "C13-T11": "maximal munch: no loop of a recogniser that advances the cursor is left because a fixed number of bytes was consumed (no exit condition compares a consumed-byte count with a non-zero constant): a token ends at the end of input or at a byte outside its class",
+    "C13-T12": "SCPI_Parse tokenises the line as given: the (data, len) pair it received reaches the unit detector unchanged, the only stores to it are the unit loop's own advance by the detector's result (no trimming of bytes the caller counted)",
     "C13-T9": "compound header shape (488.2 7.6.1.2): the decision table of the header skipper over the outcomes of its colon and mnemonic helpers is [:] mnemonic (: mnemonic)*, a colon that no mnemonic follows is an INCOMPLETE header wherever it stands, and the helpers are consulted in that order",
     "C13-T4": "character classes of predicate helpers and of every advance guard equal the 488.2 classes (computed over all 256 byte values)",
 }
@@ -733,6 +735,107 @@ def rule_t6(ck, prog):
             ck.anchor_lost("C13-T6", "return of %s" % fname)
 
 
+def rule_t11(ck, prog, model):
+    n = 0
+    for f in sorted(prog.functions.values(), key=lambda f_: (f_.relfile, f_.line)):
+        if not f.relfile.endswith("lexer.c") or not f.params or "_lex_state_t" not in (f.params[0]["type"].get("ct") or ""):
+            continue
+        base = f.params[0]["name"]
+        adv_nodes = {s_["node"].id for s_ in model.sites.get(f.name, []) if s_["kind"] == "advance"}
+        for head, body in C.loops(f):
+            in_loop = [e for bid in body for e in f.blocks[bid].elems]
+            if not any(e.id in adv_nodes for e in in_loop) and \
+                    not any(e.k == "CallExpr" and model.writes_cursor(e) for e in in_loop):
+                continue
+            counters = set()
+            for e in in_loop:
+                t = C.store_target(e)
+                if t is not None and t.k == "DeclRefExpr" and (e.k == "UnaryOperator" or e.get("op") in ("+=", "-=")):
+                    counters.add(t.get("path"))
+            st = K.site(f, "loop-exit", n)
+            n += 1
+            bad = None
+            for bid in body:
+                b = f.blocks[bid]
+                if b.cond is None or not any(s_ is not None and s_.id not in body for s_ in b.succs):
+                    continue
+                for x in b.cond.walk():
+                    if x.k != "BinaryOperator" or x.get("op") not in ("<", "<=", ">", ">=", "==", "!="):
+                        continue
+                    for side, other in ((x.child(0), x.child(1)), (x.child(1), x.child(0))):
+                        cv = C.const_of(other)
+                        if cv is None or cv == 0:
+                            continue
+                        sd = side.strip_all_casts()
+                        while sd.k == "ParenExpr":
+                            sd = sd.child(0).strip_all_casts()
+                        consumed = (sd.k == "BinaryOperator" and sd.get("op") == "-" and
+                                    any(y.k == "MemberExpr" and y.get("member") == "pos" for y in sd.walk())) or \
+                                   (sd.k == "DeclRefExpr" and sd.get("path") in counters and sd.get("tk") == "int")
+                        if consumed and bad is None:
+                            bad = (x, cv)
+            if bad:
+                ck.violated("C13-T11", st, K.loc(f, bad[0]),
+                            "the loop in %s that advances the cursor is left under `%s`: after %s bytes the token is cut although the next "
+                            "byte still belongs to it; the rest is lexed as something else (a keyword of 13 letters becomes a header "
+                            "plus an invalid character)" % (f.name, bad[0].src, bad[1]))
+            else:
+                ck.holds("C13-T11", st, K.loc(f, head.cond) if head.cond is not None else K.loc(f),
+                         "left only at the end of input or at a byte outside the class")
+    if n < 8:
+        ck.anchor_lost("C13-T11", "only %d cursor-advancing loops found in lexer.c" % n)
+
+
+def rule_t12(ck, prog):
+    f = prog.fn("SCPI_Parse")
+    if f is None or len(f.params) < 3:
+        ck.anchor_lost("C13-T12", "SCPI_Parse")
+        return
+    ck.analysed(f)
+    det = list(f.calls("scpiParser_detectProgramMessageUnit"))
+    loops_ = [(h, body) for h, body in C.loops(f) if any(f.where[c.id][0].id in body for c in det)]
+    st = K.site(f, "line-parsed-as-given", 0)
+    if len(det) != 1 or not loops_:
+        ck.anchor_lost("C13-T12", "SCPI_Parse: one unit detector call inside a loop (%d calls, %d loops)" % (len(det), len(loops_)))
+        return
+    body = set().union(*[b for _h, b in loops_])
+    datap, lenp = f.params[1]["name"], f.params[2]["name"]
+    a = C.call_args(det[0])
+    if a[1].strip_all_casts().get("path") != datap or a[2].strip_all_casts().get("path") != lenp:
+        ck.violated("C13-T12", st, K.loc(f, det[0]), "the unit detector is run on (`%s`, `%s`), not on the line handed in (`%s`, `%s`)"
+                    % (a[1].src, a[2].src, datap, lenp))
+        return
+    # the local holding the detector's result
+    res = None
+    for n_, t in C.stores(f):
+        if n_.get("op") == "=" and n_.child(1).strip_all_casts() is det[0]:
+            res = t.get("path")
+    for n_ in f.nodes.values():
+        if n_.k == "DeclStmt":
+            for d in n_.get("decls", []):
+                if "init" in d and f.nodes[d["init"]].strip_all_casts() is det[0]:
+                    res = d["name"]
+    bad = None
+    nst = 0
+    for n_, t in C.stores(f):
+        if t.get("path") not in (datap, lenp):
+            continue
+        nst += 1
+        inside = n_.id in f.where and f.where[n_.id][0].id in body
+        want_op = "+=" if t.get("path") == datap else "-="
+        okk = inside and n_.get("op") == want_op and res is not None and n_.child(1).strip_all_casts().get("path") == res
+        if not okk and bad is None:
+            bad = n_
+    if bad is not None:
+        ck.violated("C13-T12", st, K.loc(f, bad),
+                    "`%s` changes the line SCPI_Parse was given other than by the unit loop's own advance: bytes the caller counted are "
+                    "dropped before the tokenizer sees them (a block whose last payload byte is 0x00 loses it and becomes incomplete)"
+                    % bad.src[:60])
+    else:
+        ck.holds("C13-T12", st, K.loc(f, det[0]), "detector run on (%s, %s); %d store(s), all `%s += %s` / `%s -= %s` inside the unit loop"
+                 % (datap, lenp, nst, datap, res, lenp, res))
+
+
 def rule_t10(ck, prog):
     f = prog.fn("scpiParser_parseProgramData")
     if f is None:
@@ -894,6 +997,8 @@ def run(ck, fb, tier):
         rule_t7(ck, prog)
         rule_t9(ck, prog, tier)
         rule_t10(ck, prog)
+        rule_t11(ck, prog, model)
+        rule_t12(ck, prog)
         rule_t5_detector(ck, prog, S)
     ck.trust("spec/char_classes.json (488.2 section 7 classes and the leniencies of src/scpi.g)",
              "<ctype.h> classifiers by their C-locale definition")
